@@ -5,6 +5,7 @@ package main
 
 import (
 	"encoding/json"
+	"os/exec"
 	"golang.org/x/tools/go/ssa"
 	"flag"
 	"fmt"
@@ -21,7 +22,9 @@ type PropConfig struct {
 	Functions     []string `json:"functions"`      // canonical keys of functions under contract
 	NotApplicable []string `json:"not_applicable"` // clauses declared N/A (informational, copied to evidence)
 	Assumptions   []string `json:"assumptions"`
-	Bounded       []string `json:"bounded"` // names of bounded stand-ins (run by `bounded` subcommand)
+	Bounded       []string `json:"bounded"` // bounded stand-ins: file names under /verif/bounded (Go test sources run through an overlay)
+	Level         string `json:"level"` // evidence level override ("other" for properties decided mainly by bounded stand-ins)
+	Explanation   string `json:"explanation"`
 	Callers       map[string][]string `json:"callers"` // callee -> the only functions allowed to call it (package sweep)
 }
 
@@ -261,6 +264,21 @@ func checkMain(args []string) int {
 		what := fmt.Sprintf("%s [%s] at %s: solver verdict %s (%s)", o.Text, o.Kind, o.Pos, o.Result, o.Backend)
 		report(o.Name, what, rp, confirmed)
 	}
+	// bounded stand-ins (labelled bounded, never counted as proved)
+	boundedResults = nil
+	for _, bf := range pc.Bounded {
+		br := runBounded(bf, *tier)
+		boundedResults = append(boundedResults, br)
+		if br.Violation {
+			rp := filepath.Join(replayDir, "bounded-"+mangle(bf)+".txt")
+			os.WriteFile(rp, []byte("obligation: <bounded:"+bf+">\n"+br.Output+"\n"), 0o644)
+			report("<bounded:"+bf+">", "bounded stand-in found a counterexample on the real code: "+firstLine(br.Output, "GOVC-BOUNDED-VIOLATION"), rp, true)
+		} else if !br.Ok {
+			rp := filepath.Join(replayDir, "bounded-"+mangle(bf)+".txt")
+			os.WriteFile(rp, []byte("obligation: <bounded:"+bf+">\n"+br.Output+"\n"), 0o644)
+			report("<bounded:"+bf+">", "bounded stand-in did not run to completion", rp, false)
+		}
+	}
 	writeEvidence(prop, *tier, seed, records, abstracted, knownHit, pc, time.Since(start), violations, allObls, w)
 	fmt.Printf("%s %s: %d obligations, %d discharged, %d known findings, %d violations, %.1fs\n", prop, *tier, counted, discharged, len(knownHit), violations, time.Since(start).Seconds())
 	if violations > 0 {
@@ -428,8 +446,12 @@ func writeEvidence(prop, tier string, seed int, recs []oblRecord, abstracted, kn
 			"abstracted":               abstracted,
 			"known_findings_hit":       knownHit,
 			"not_applicable_clauses":   pcNA(pc),
-			"bounded":                  pcBounded(pc),
+			"bounded":                  boundedResults,
 		},
+	}
+	if pc != nil && pc.Level != "" && total > 0 {
+		ev["level"] = pc.Level
+		ev["coverage"].(map[string]interface{})["explanation"] = pc.Explanation
 	}
 	if total == 0 {
 		ev["level"] = "other"
@@ -508,4 +530,78 @@ func callersSweep(w *World, pc *PropConfig) []string {
 		}
 	}
 	return out
+}
+
+type boundedResult struct {
+	File      string `json:"file"`
+	Label     string `json:"label"`
+	Ok        bool   `json:"completed"`
+	Violation bool   `json:"violation"`
+	Cases     int    `json:"cases"`
+	Bound     string `json:"bound"`
+	Seconds   float64 `json:"seconds"`
+	Output    string `json:"-"`
+}
+
+var boundedResults []boundedResult
+
+func firstLine(out, marker string) string {
+	for _, l := range strings.Split(out, "\n") {
+		if strings.Contains(l, marker) {
+			return strings.TrimSpace(l)
+		}
+	}
+	return ""
+}
+
+// runBounded runs one bounded stand-in: a Go test source under /verif/bounded injected into its package
+// through `go test -overlay` (nothing is written under /repo).
+func runBounded(file string, tier string) boundedResult {
+	br := boundedResult{File: file, Label: "bounded stand-in (not a proof)"}
+	src, err := os.ReadFile(filepath.Join(verifDir, "bounded", file))
+	if err != nil {
+		br.Output = err.Error()
+		return br
+	}
+	pkgDir, testName := "", ""
+	for _, l := range strings.Split(string(src), "\n") {
+		l = strings.TrimSpace(l)
+		if strings.HasPrefix(l, "// package:") {
+			pkgDir = strings.TrimSpace(strings.TrimPrefix(l, "// package:"))
+		}
+		if strings.HasPrefix(l, "// run:") {
+			testName = strings.TrimSpace(strings.TrimPrefix(l, "// run:"))
+		}
+	}
+	work, err := os.MkdirTemp("", "govc-bounded-")
+	if err != nil {
+		br.Output = err.Error()
+		return br
+	}
+	defer os.RemoveAll(work)
+	testSrc := filepath.Join(work, "zz_govc_bounded_test.go")
+	os.WriteFile(testSrc, src, 0o644)
+	ov := map[string]map[string]string{"Replace": {filepath.Join(repoDir, pkgDir, "zz_govc_bounded_test.go"): testSrc}}
+	ovData, _ := json.Marshal(ov)
+	ovPath := filepath.Join(work, "overlay.json")
+	os.WriteFile(ovPath, ovData, 0o644)
+	start := time.Now()
+	cmd := exec.Command("go", "test", "-overlay", ovPath, "-vet=off", "-count=1", "-timeout", "600s", "-run", "^"+testName+"$", "-v", "./"+pkgDir)
+	cmd.Dir = repoDir
+	cmd.Env = append(os.Environ(), "GOFLAGS=-mod=mod", "GOPROXY=off", "GOSUMDB=off", "GOTOOLCHAIN=local", "VERIF_TIER="+tier)
+	out, _ := cmd.CombinedOutput()
+	br.Seconds = time.Since(start).Seconds()
+	br.Output = truncate(string(out), 8000)
+	if strings.Contains(string(out), "GOVC-BOUNDED-VIOLATION") || strings.Contains(string(out), "panic:") {
+		br.Violation = true
+		return br
+	}
+	if l := firstLine(string(out), "GOVC-BOUNDED cases="); l != "" {
+		fmt.Sscanf(l[strings.Index(l, "cases=")+6:], "%d", &br.Cases)
+		if i := strings.Index(l, "bound="); i >= 0 {
+			br.Bound = strings.Trim(l[i+6:], "\"")
+		}
+		br.Ok = strings.Contains(string(out), "\nok") || strings.Contains(string(out), "PASS")
+	}
+	return br
 }
